@@ -106,7 +106,8 @@ def build_tools(ctx):
     except OSError:
         pass
     HARNESS = os.path.join(run_dir, "harness")
-    rc, out = sh(["go", "build", "-modfile", modfile, "-tags", "verif", "-o", HARNESS, "."], cwd=hdir, env=GOENV)
+    rc, out = sh(["go", "build", "-modfile", modfile, "-tags", "verif", "-o", HARNESS, *harness_files(ctx.prop)],
+                 cwd=hdir, env=GOENV)
     ctx.harness_ok = rc == 0
     ctx.harness_log = out
     rc, out = sh(["lake", "build", f"driver_{ctx.prop.lower()}"], cwd=LEAN)
@@ -120,6 +121,28 @@ def build_tools(ctx):
         ctx.log("harness does not build against the repository:\n" + ctx.harness_log[-3000:])
     if not ctx.driver_ok:
         ctx.log("lean driver does not build:\n" + ctx.driver_log[-3000:])
+
+
+def harness_files(prop):
+    """Go files of the harness that belong to one property: the shared files (main.go, util.go,
+    memsymbols.go, shared_*.go) plus every file whose leading underscore-separated name tokens of
+    the form cNN include the property (c03.go, c03_store.go, c02_c19_paging.go, ...).  A compile
+    error in another property's harness file therefore cannot break this property's check."""
+    hdir = os.path.join(VERIF, "harness")
+    files = []
+    for fn in sorted(os.listdir(hdir)):
+        if not fn.endswith(".go") or fn.endswith("_test.go"):
+            continue
+        toks = fn[:-3].split("_")
+        lead = []
+        for t in toks:
+            if re.fullmatch(r"c\d\d", t):
+                lead.append(t)
+            else:
+                break
+        if not lead or prop.lower() in lead:
+            files.append(fn)
+    return files
 
 
 def cleanup(ctx):
